@@ -744,30 +744,70 @@ def _abnormal_exit_rule(repo, rep):
                     dval = L.slot_value(sf, b["_D"])
                     per_node = skey[0] != "lit" and "id(node)" in str(skey)
                     is_dict = dval is not None and "dict" in A.show(dval)
-                    first = hitems[0] if hitems else None
+                    # the leading code fragments of the handler, as one
+                    # statement list (the restore may be emitted in pieces)
+                    lead = []
+                    for w in hitems:
+                        if isinstance(w, A.Frag) and w.tree is not None:
+                            lead.append(w)
+                        else:
+                            break
                     restored = False
-                    if isinstance(first, A.Frag):
-                        fb = L.frag_find(first, "_D.clear(econtext)", "expr")
-                        fu = L.frag_find(first, "econtext.update(_S)", "expr")
-                        fg = L.frag_find(first, "econtext.update(rcontext)",
-                                         "expr")
-                        same = any(L.name_key(first, x[1]["_S"]) == skey
-                                   for x in fu)
-                        # order: clear, then the snapshot, then the globals
-                        # on top (a global defined inside the failed element
-                        # must survive the restore)
-                        pos = {}
-                        for k, st in enumerate(first.tree.body):
-                            t = src(st).replace(" ", "")
-                            if ".clear(econtext)" in t:
+                    bare_merge = False
+                    pos = {}
+                    k = 0
+                    same = False
+                    filt_ok = False
+                    gsnaps = {}
+                    for j2, (w2, c2_, p2_) in enumerate(lin.rows[:i]):
+                        if isinstance(w2, A.Frag):
+                            for node2, b2 in L.frag_find(
+                                    w2, "_G = rcontext.copy()"):
+                                if isinstance(b2["_G"], ast.Name):
+                                    v2 = L.slot_value(w2, b2["_G"])
+                                    if v2 is not None and A.per_node(v2)[0]:
+                                        gsnaps[L.name_key(w2, b2["_G"])] = j2
+                    for w in lead:
+                        for st in w.tree.body:
+                            k += 1
+                            if not isinstance(st, ast.Expr):
+                                continue
+                            e = st.value
+                            if L.match(L.pat("_D.clear(econtext)", "expr"),
+                                       e) is not None:
                                 pos.setdefault("clear", k)
-                            elif t == "econtext.update(rcontext)":
+                                continue
+                            mu = L.match(L.pat("econtext.update(_A)",
+                                               "expr"), e)
+                            if mu is None:
+                                continue
+                            arg = mu["_A"]
+                            if "rcontext" in src(arg):
                                 pos.setdefault("globals", k)
-                            elif t.startswith("econtext.update("):
+                                if isinstance(arg, ast.Name):
+                                    bare_merge = True
+                                    filt_ok = True
+                                else:
+                                    for cmp_ in ast.walk(arg):
+                                        mt = L.match(L.pat(
+                                            "_S.get(_K, __marker) is not _V",
+                                            "expr"), cmp_) if isinstance(
+                                                cmp_, ast.Compare) else None
+                                        if mt is not None and isinstance(
+                                                mt["_S"], ast.Name) and \
+                                                L.name_key(w, mt["_S"]) \
+                                                in gsnaps:
+                                            filt_ok = True
+                            elif isinstance(arg, ast.Name) and \
+                                    L.name_key(w, arg) == skey:
                                 pos.setdefault("snapshot", k)
-                        ordered = len(pos) == 3 and pos["clear"] < \
-                            pos["snapshot"] < pos["globals"]
-                        restored = bool(fb) and same and bool(fg) and ordered
+                                same = True
+                    # order: clear, then the snapshot, then the globals on
+                    # top (a global defined inside the failed element must
+                    # survive the restore)
+                    ordered = len(pos) == 3 and pos["clear"] < \
+                        pos["snapshot"] < pos["globals"]
+                    restored = same and ordered and filt_ok
                     ok = per_node and is_dict and restored
                     detail = "snapshot per node: %s, dict.copy: %s, handler " \
                              "starts with clear/update(snapshot)/update(" \
@@ -779,6 +819,14 @@ def _abnormal_exit_rule(repo, rep):
                           "of elements cut short by the failure are undone",
                           construct="handler-restores-scope",
                           where=L.where(m), detail=detail)
+                rep.check(ok and not bare_merge, "R05.8", m.qualname,
+                          "the globals re-applied by the handler are those "
+                          "defined or re-assigned since the element was "
+                          "entered (per-node snapshot of rcontext): a local "
+                          "that shadows an older global is not replaced by "
+                          "a handled failure",
+                          construct="handler-merge-overwrites-shadow",
+                          where=L.where(m))
     rep.require_min("R05.8", 1, "swallowing handlers around child content "
                                 "(tal:on-error)")
 
